@@ -15,7 +15,7 @@ REQUIRED_MONITORS = ["markers@stab_plot(function)", "markers@cluster_plot(functi
 ALL_STATES = ["hide_poles=True", "hide_poles=False", "with covariance error bars", "freqlim given", "step=1", "step=2", "step=3", "more rows than orders", "more orders than rows",
               "empty column", "no stable pole", "nSv=all", "nSv<all"]
 REQUIRED_STATES = ["hide_poles=True", "hide_poles=False", "with covariance error bars", "freqlim given", "step=2", "more rows than orders", "more orders than rows", "nSv=all", "nSv<all", "column-major tables",
-                   "earlier figures left open", "49 or more pole slots"]
+                   "earlier figures left open", "49 or more pole slots", "several objects of one class and name plotted in one process"]
 RULE = ("random pole / label tables up to 60 orders, non-square, any NaN pattern, labels 0/1, step 1..3 at function level, freqlim, with/without covariance; results "
         "of real SSIcov / pLSCF / FDD runs through the classes' plot methods; the data of the matplotlib artists on the returned axes (Agg) are read back: green "
         "'o' Line2D = multiset {(Fn[i,j], j*step): Lab=1}, red PathCollection = {(Fn[i,j], j*step): Lab=0}, cluster diagram with Xi as ordinate; CMIF "
@@ -267,6 +267,27 @@ def run_classes(ctx, rng):
         ctx.nontrivial((nm, hide, freqlim))
         if nm == "SSIcov":
             ctx.state("with covariance error bars")
+    # history: other recordings analysed in the same process by algorithms of the same class, the same (default) name and the same
+    # table sizes - every diagram shows the poles of the object it was asked of
+    from pyoma2.algorithms import SSIcov as _S, pLSCF as _P
+    from pyoma2.setup import SingleSetup as _SS
+    for rep in range(2):
+        d2, *_ = gen.sim_response(rng, 3, 5000, 100.0, m=int(rng.integers(2, 4)))
+        s2 = _SS(d2, 100.0)
+        a2, p2 = _S(br=8, ordmax=14), _P(ordmax=8, nxseg=512)
+        s2.add_algorithms(a2, p2)
+        s2.run_all()
+        for alg2, nm2 in ((a2, "SSIcov"), (p2, "pLSCF")):
+            r2 = alg2.result
+            F2, X2, L2 = np.asarray(r2.Fn_poles), np.asarray(r2.Xi_poles), np.asarray(r2.Lab)
+            h2 = bool(rng.integers(0, 2))
+            fig, ax = alg2.plot_stab(freqlim=freqlim, hide_poles=h2)
+            judge_axes(ctx, f"markers@{nm2}.plot_stab", f"{nm2}_stab_other_object_same_name", ax, F2, L2, lambda i, j: j, h2)
+            fig2, ax2 = alg2.plot_cluster(freqlim=freqlim, hide_poles=h2)
+            judge_axes(ctx, f"markers@{nm2}.plot_cluster", f"{nm2}_cluster_other_object_same_name", ax2, F2, L2, lambda i, j: X2[i, j], h2)
+            plt.close(fig)
+            plt.close(fig2)
+    ctx.state("several objects of one class and name plotted in one process")
     nch = np.shape(f.result.S_val)[0]
     nSv = "all" if rng.random() < 0.5 else int(rng.integers(1, nch))
     fig, ax = f.plot_CMIF(freqlim=freqlim, nSv=nSv)
